@@ -421,10 +421,9 @@ def modelStep (s : DState) (cmd : String) (t lhs rhs : Array String) (line : Str
       | some db, some sb =>
         let grows := decide (db.cap < db.len + sb.len)
         if db.ch == sb.ch && grows && !growOK db sb g then
-          -- growth of a partially filled last frame (or an inadmissible capacity): outside the model
-          if db.ch != 0 && (db.len % db.ch != 0 || sb.len % db.ch != 0) then
-            { s with dead := true, nUnspec := s.nUnspec + 1 }
-          else s.diverge s!"append-growcap {d} {sr}" s!"admissible cap >= {db.len + sb.len} multiple of {db.ch}" (toString g)
+          -- the observed capacity after growing is not admissible (below the new length, or not a whole
+          -- number of frames) - this is also what a panic inside the growing `Append` leaves behind
+          s.diverge s!"append-growcap {d} {sr}" s!"{implOutcome rhs}: admissible cap >= {db.len + sb.len} multiple of {db.ch}" (toString g)
         else
           settle s s!"append {d} {sr}" (db.append s.heap sb (d == sr) g) rhs fun s _ b' =>
             { s with bufs := s.bufs.set! d.toNat (some b') }
@@ -583,6 +582,16 @@ def stepLine (s : DState) (line : String) : DState :=
             s.divergeK s!"kernel {c.fnName} {c.sk.toString}>{c.dk.toString} x={x}" (toString m) (toString y)
       let s := kernelPreds s c x y
       { s with kprev := some (x, y) }
+  else if cmd == "kpanic" then
+    -- a conversion panicked on well-formed buffers with equal channel counts: no kernel of the model does
+    let fn := t[1]?.getD ""; let detail := s!"entry={fn} sk={t[2]?.getD ""} dk={t[3]?.getD ""} types={t[4]?.getD ""} panic={t[5]?.getD ""}"
+    let s := { s with nKern := s.nKern + 1, nPred := s.nPred + 1 }
+    let s := s.fail "C05" "kernel-panics" detail
+    let s := if fn == "FloatAsSigned" || fn == "FloatAsUnsigned" then s.fail "C08" "kernel-panics" detail
+      else if fn == "SignedAsFloat" || fn == "UnsignedAsFloat" then s.fail "C09" "kernel-panics" detail
+      else if fn == "FloatAsFloat" then s
+      else (s.fail "C06" "kernel-panics" detail).fail "C07" "kernel-panics" detail
+    s.divergeK s!"kernel {fn} panics" "a value" (t[5]?.getD "")
   else if cmd == "rtseq" then
     match ConvFn.ofString? (t[1]?.getD ""), ConvFn.ofString? (t[2]?.getD ""), Kind.ofString? (t[3]?.getD ""), Kind.ofString? (t[4]?.getD "") with
     | some f1, some f2, some a, some b => { s with rtctx := some ⟨f1, f2, t[1]!, t[2]!, a, b⟩, rtprev := none }
